@@ -3,6 +3,7 @@
 #include <occa/internal/modes/serial/memory.hpp>
 #include <occa/internal/modes/serial/memoryPool.hpp>
 
+#include <occa/internal/utils/verif.hpp>
 namespace occa {
 
   modeMemoryPool_t::modeMemoryPool_t(modeDevice_t *modeDevice_,
@@ -11,10 +12,12 @@ namespace occa {
     alignment(128),
     reserved(0),
     buffer(nullptr) {
+    OCCA_VERIF_CONSTRUCTED(kMemoryPool);
     verbose = properties_.get("verbose", false);
   }
 
   modeMemoryPool_t::~modeMemoryPool_t() {
+    OCCA_VERIF_DESTROYED(kMemoryPool);
     // NULL all wrappers
     while (memoryPoolRing.head) {
       memoryPool *memPool = (memoryPool*) memoryPoolRing.head;
